@@ -365,6 +365,16 @@ class Resolver:
                     tg = [i.optional_vars for i in n.items if i.optional_vars is not None]
                 elif isinstance(n, ast.comprehension):
                     tg = [n.target]
+                # ``a, b = value``: each name stands for the element at its position
+                if isinstance(n, ast.Assign) and len(n.targets) == 1 and isinstance(n.targets[0], (ast.Tuple, ast.List)) and n.targets[0].elts \
+                        and all(isinstance(x, ast.Name) for x in n.targets[0].elts):
+                    for i_, x in enumerate(n.targets[0].elts):
+                        counts[x.id] = counts.get(x.id, 0) + 1
+                        if isinstance(n.value, (ast.Tuple, ast.List)) and len(n.value.elts) == len(n.targets[0].elts) and not any(isinstance(y, ast.Starred) for y in n.value.elts):
+                            vals[x.id] = n.value.elts[i_]
+                        else:
+                            vals[x.id] = ast.Subscript(value=n.value, slice=ast.Constant(value=i_), ctx=ast.Load())
+                    continue
                 for t in tg:
                     for x in ast.walk(t):
                         if isinstance(x, ast.Name) and isinstance(x.ctx, (ast.Store, ast.Del)):
